@@ -86,7 +86,41 @@ ZAlign == [q \in 1..14 |->
                        Comp(IF q <= 7 THEN TBits(Sz(17, 33, FALSE)) ELSE TOct(Sz(3, 4, FALSE)), "man", <<>>),
                        Comp(TInt(Rng(0, 255, FALSE)), "man", <<>>)>>, 3, FALSE)]
 
-Zoo == ZInts \o <<TBool, TNull>> \o ZEnums \o ZOcts \o ZBits \o ZStrs \o ZLists \o ZShapes \o ZClassShapes \o ZChoices \o ZNested \o ZAlign \o ZBig
+\* mixed types: pseudo-randomly composed trees (depth <= 3) of the constructors - SEQUENCE / SET shapes with OPTIONAL,
+\* DEFAULT and extension additions, CHOICE with extension alternatives, lists, and leaves of every class - so that
+\* combinations of features meet that the systematic families keep apart.  Deterministic: Pick is a fixed mixing function.
+\* (all intermediate values stay below 2^31)
+Pick(q, k, n) == LET a == q % 9973 b == (q \div 9973) % 9973 IN ((((a * 7919 + b * 6733 + k * 10477) % 99991) * 21 + (a % 13)) % n) + 1
+MixLeaves == <<I07, TBool, TNull, TInt(NoCon), TInt(Rng(0 - 5, 5, TRUE)), TInt(Rng(5, 5, FALSE)), TEnum(2, 1, TRUE), TEnum(3, 0, FALSE),
+               TOct(NoSz), TOct(Sz(1, 2, TRUE)), TBits(Sz(3, 3, FALSE)), TBits(NoSz), TStr("utf8", NoSz), TStr("ia5", Sz(1, 4, FALSE)),
+               TStr("num", Sz(0, 3, TRUE)), TStr("vis", NoSz), TStr("prt", Sz(2, 2, FALSE)), TInt(Rng(0, 65535, FALSE))>>
+RECURSIVE MixType(_, _)
+MixType(q, d) ==
+  \* 1, 2: SEQUENCE, 3: CHOICE, 5: list, 4, 6: leaf (never a bare leaf at the top)
+  LET k0 == Pick(q, 1, 6)
+      kind == IF d >= 2 THEN 4 ELSE IF d = 0 /\ k0 \in {4, 6} THEN k0 - 3 ELSE k0
+  IN IF kind <= 2
+     THEN LET n == Pick(q, 2, 4)
+              nroot == Pick(q, 3, n)
+              ext == Pick(q, 4, 2) = 1
+              comp(i) == LET t == MixType((q * 31 + i) % 1000003, d + 1)
+                             m == Pick((q * 31 + i) % 1000003, 5, 3)
+                             \* DEFAULT only for INTEGER (0..7) and BOOLEAN leaves
+                         IN IF m = 3 /\ t = I07 THEN Comp(t, "def", <<3>>)
+                            ELSE IF m = 3 /\ t = TBool THEN Comp(t, "def", <<TRUE>>)
+                            ELSE Comp(t, IF m = 1 THEN "man" ELSE "opt", <<>>)
+          IN TSeq([i \in 1..n |-> comp(i)], IF ext THEN nroot ELSE n, ext)
+     ELSE IF kind = 3
+     THEN LET n == Pick(q, 2, 4)
+              ext == Pick(q, 4, 2) = 1
+          IN TChoice([i \in 1..n |-> MixType((q * 37 + i) % 1000003, d + 1)], IF ext THEN Pick(q, 3, n) ELSE n, ext)
+     ELSE IF kind = 5
+     THEN TSeqOf(MixType((q * 41 + 1) % 1000003, d + 1), <<NoSz, Sz(0, 3, FALSE), Sz(1, 2, TRUE)>>[Pick(q, 2, 3)])
+     ELSE MixLeaves[Pick(q, 6, Len(MixLeaves))]
+NMix == IF N <= 3 THEN 60 ELSE 300
+ZMix == [q \in 1..NMix |-> MixType(q + 100, 0)]
+
+Zoo == ZInts \o <<TBool, TNull>> \o ZEnums \o ZOcts \o ZBits \o ZStrs \o ZLists \o ZShapes \o ZClassShapes \o ZChoices \o ZNested \o ZAlign \o ZMix \o ZBig
 IsBig(i) == i > Len(Zoo) - Len(ZBig)
 
 (***************************************************************************)
